@@ -407,7 +407,7 @@ func (r *Run) Execute() Outcome {
 }
 
 func absentObs() kv.Obs {
-	return kv.Obs{RawErr: "missing", ExpErr: "missing", GXErr: "missing", XErr: "missing", VErr: "missing"}
+	return kv.Obs{RawErr: "missing", ExpErr: "missing", GXErr: "missing", XErr: "missing", VErr: "missing", GetErr: "missing"}
 }
 
 func firstLine(s string) string {
